@@ -1,11 +1,11 @@
 #!/usr/bin/env python3-vt
 """developer runner: python3-vt dev.py <contract-module> [key-substring]"""
-import sys, importlib, time
-sys.path.insert(0, "/verif")
+import sys, importlib, time, os
+ROOT = os.path.dirname(os.path.abspath(__file__)); sys.path.insert(0, ROOT)
 sys.setrecursionlimit(10000)
 from pyvc.verifier import REG, Verifier
 import os
-REG.spec_source("/verif/contracts/specs.py")
+REG.spec_source(os.path.join(ROOT, "contracts", "specs.py"))
 for m in sys.argv[1].split(","):
     importlib.import_module("contracts." + m)
 flt = sys.argv[2] if len(sys.argv) > 2 else ""
